@@ -519,6 +519,9 @@ func ParseNodeString(node string) (*NodeID, string) {
 		return nil, ""
 	}
 	nodeID := BytesToNodeID(common.FromHex(trunks[0]))
+	if nodeID == nil { // 128 characters that are not 128 hex digits
+		return nil, ""
+	}
 	_, err := nodeID.PubKey()
 	if err != nil {
 		return nil, ""
